@@ -254,7 +254,11 @@ def run(ctx):
                 shape = "lit:%s:%s" % (lit_class(l), x["t"])
             else:
                 tys = [nv[c]["t"] if nv[c]["st"] == "ok" else "unevaluated" for c in kids]
-                shape = "%s:%s" % (n["op"] if n["k"] != "tern" else "?:", ",".join(tys))
+                if n["k"] == "tern":
+                    # what matters for ?: is the conversion of the chosen arm to the common type
+                    shape = "?::%s->%s" % ([t for t in tys[1:] if t != "unevaluated"][0], x["t"])
+                else:
+                    shape = "%s:%s" % (n["op"], ",".join(tys))
             cases[text] = {"rec": x, "shape": shape,
                            "kids": [render(pool, pre, c) for c in kids if nv[c]["st"] == "ok"]}
     texts = sorted(cases)
